@@ -523,6 +523,11 @@ class Tr:
                     return [], "[]", want
                 bad(n, "empty list literal")
             return bs, "[" + "; ".join(ts) + "]", ("list", ty)
+        if isinstance(n, ast.UnaryOp) and isinstance(n.op, ast.USub):
+            b, t, ty = self.E(n.operand, env)
+            if ty != "int":
+                bad(n, "unary minus on " + str(ty))
+            return b, f"(- {t})", "int"
         if isinstance(n, ast.UnaryOp) and isinstance(n.op, ast.Not):
             b, t = self.cond(n.operand, env)
             if t.startswith("(negb ") and t.endswith(")") and _balanced(t[6:-1]):
@@ -871,7 +876,7 @@ class Tr:
 
     def falls_through(self, stmts):
         for s in stmts:
-            if isinstance(s, (ast.Return, ast.Raise, ast.Break)):
+            if isinstance(s, (ast.Return, ast.Raise, ast.Break, ast.Continue)):
                 return False
             if isinstance(s, ast.If) and s.orelse and not self.falls_through(s.body) and not self.falls_through(s.orelse):
                 return False
@@ -1090,6 +1095,10 @@ class Tr:
             return self.with_bindings(bs, self.raise_(exc.func.id))
         if isinstance(s, ast.Break):
             return f"Break {self.loop[-1]}"
+        if isinstance(s, ast.Continue):
+            if not self.loop:
+                bad(s, "continue outside a loop")
+            return f"Next {self.loop[-1]}"
         if isinstance(s, ast.If):
             var, positive = self.narrow(s.test)
             ft_then, ft_else = self.falls_through(s.body), (self.falls_through(s.orelse) if s.orelse else True)
